@@ -25,6 +25,7 @@
  R9 path lookup  : each internal ROADM path is registered with the impairment profile looked up for the same (from, to) pair.
  R10 profile order: impairment profiles keep their listing order (first of a kind = default).
  R11 ROADM input  : upstream walk sums losses; upstream ROADM target read for the degree the walk came from.
+ R12 design order   : fibres are split before ROADM boosters / preamps are inserted (degree names) - shared with C08.
 """
 import ast
 
@@ -469,6 +470,15 @@ def r_roadm_input(ctx):
     ctx.need('R11.roadm-input', 3)
 
 
+
+def r12_design_order(ctx):
+    """R12: the degrees of a ROADM are named after the element that follows it once the fibres are split: fibres are split before
+    the ROADM amplifiers are inserted (per-degree targets are keyed by those names) - rule shared with C08"""
+    from .c08 import r5_order as _r
+    from .common import proxy
+    _r(proxy(ctx, 'R12'))
+
+
 from ..memo import rule_for as _memo_rule
 
 RULES_MEMO = ('Rm.memo', _memo_rule('C06', 'the equalisation computed for another spectrum or target would be applied'))
@@ -478,4 +488,4 @@ from ..presence import rule_for as _presence_rule
 
 RULES_PRESENCE = ('Rp.presence', _presence_rule('C06', 'a ROADM target of exactly 0 dBm would be ignored and another target applied'))
 
-RULES = [('R6.stateless', r6_stateless), ('R1.formula', r1_formula), ('R2.policy', r2_policy), ('R4.one-policy', r4_one_policy), ('R5.design', r5_design), RULES_MEMO, RULES_PRESENCE, ('R7.channel-order', r7_channel_order), ('Rk.field-key', rk_field_key), ('Rx.export-keys', rx_export_keys), ('Re.for-each', re_foreach), ('R8.mode-copy', r_mode_copy), ('Rn.arg-roles', rn_arg_roles), ('R9.path-lookup', r_path_lookup), ('R10.profile-order', r10_profile_order), ('R11.roadm-input', r_roadm_input)]
+RULES = [('R6.stateless', r6_stateless), ('R1.formula', r1_formula), ('R2.policy', r2_policy), ('R4.one-policy', r4_one_policy), ('R5.design', r5_design), RULES_MEMO, RULES_PRESENCE, ('R7.channel-order', r7_channel_order), ('Rk.field-key', rk_field_key), ('Rx.export-keys', rx_export_keys), ('Re.for-each', re_foreach), ('R8.mode-copy', r_mode_copy), ('Rn.arg-roles', rn_arg_roles), ('R9.path-lookup', r_path_lookup), ('R10.profile-order', r10_profile_order), ('R11.roadm-input', r_roadm_input), ('R12.design-order', r12_design_order)]
